@@ -454,3 +454,5 @@ def run(ck):
         listshape.check(prog, r)
         from rules.C06 import c06_10
         c06_10(ck, prog, 'C05.9')
+        from rules.C09 import c09_8
+        c09_8(ck, prog, 'C05.10')
